@@ -40,6 +40,21 @@ class time_limit:
         return False
 
 
+class debug_logging:
+    """with debug_logging(): every log record of the library is really formatted (root logger at DEBUG with a handler that renders the message
+    into a buffer), as with `--log_level DEBUG`; the checks otherwise run with logging disabled.  Logging must not change what is parsed."""
+    def __enter__(self):
+        import logging, io
+        self.buf = io.StringIO(); self.h = logging.StreamHandler(self.buf); self.h.setLevel(logging.DEBUG)
+        self.root = logging.getLogger(); self.old_level = self.root.level; self.old_disable = logging.root.manager.disable
+        logging.disable(logging.NOTSET); self.root.setLevel(logging.DEBUG); self.root.addHandler(self.h)
+        return self
+    def __exit__(self, *a):
+        import logging
+        self.root.removeHandler(self.h); self.root.setLevel(self.old_level); logging.disable(self.old_disable)
+        return False
+
+
 def sh(cmd, timeout=600, cwd=None, env=None, input=None):
     """run a shell command; returns (rc, stdout+stderr)"""
     e = dict(os.environ)
@@ -142,6 +157,11 @@ class Ctx:
         self.known = load_known(pid)
         self.input_dist = {}
         os.makedirs(os.path.join(VERIF, 'evidence', 'replays'), exist_ok=True)
+        # replay files of an earlier run of THIS check describe an earlier tree: remove them, so that what is there belongs to this run
+        import glob as _g
+        for f in _g.glob(os.path.join(VERIF, 'evidence', 'replays', '%s-*' % pid)):
+            try: os.unlink(f)
+            except OSError: pass
 
     # ---- counting ----
     def count(self, key, n=1):
